@@ -110,6 +110,7 @@ theorem step_dict (kvs : List (Key × Val)) (st : DStep) (hg : GoodD kvs) (ha : 
     simp only [admissibleD, Bool.and_eq_true, List.all_eq_true] at ha
     simp only [implD, specD, setAll_merge_of_ok ha.1 ha.2]
   | copy => simp only [implD, specD, cloneKvs_eq]
+  | union p r => rfl
   | rebind pairs kw =>
     simp only [admissibleD, Bool.and_eq_true, List.all_eq_true] at ha
     simp only [implD, specD, setAll_merge_of_ok ha.1 ha.2]
@@ -184,6 +185,7 @@ theorem specD_good (kvs : List (Key × Val)) (st : DStep) (hg : GoodD kvs) (ha :
     simp only [admissibleD, Bool.and_eq_true, List.all_eq_true] at ha
     exact goodD_assignAll hg ha.1
   | copy => exact hg
+  | union p r => exact hg
   | rebind pairs kw =>
     simp only [admissibleD, Bool.and_eq_true, List.all_eq_true] at ha
     simp only [specD]
